@@ -425,9 +425,27 @@ Definition dir_accounted (i : inv) (ex : list (list str * pnode)) (v : val) : bo
                ++ (if str_eqb (helper i) (lit "dohtml")
                    then SL :: h_p (p_html (parse_argv (helper i) (args i) false parsed0)) else []))).
 
+(* two prescribed entries at one destination: a later regular file replaces an earlier one and a
+   directory may be named twice, but a symlink or a kind change at an occupied path (e.g. the
+   same symlinked directory reached through "dir/lnk" and through "dir/.") has no prescribed
+   outcome — cp -r and every implementation refuse it *)
+Definition same_kind_ok (a b : pnode) : bool :=
+  match a, b with
+  | PDir _, PDir _ => true
+  | PFile _ _, PFile _ _ => true
+  | _, _ => false
+  end.
+Fixpoint conflict (ex : list (list str * pnode)) : bool :=
+  match ex with
+  | [] => false
+  | kn :: r => existsb (fun kn' => match key_cmp (fst kn) (fst kn') with
+                                   | Eq => negb (same_kind_ok (snd kn) (snd kn')) | _ => false end) r
+               || conflict r
+  end.
+
 (* true = the recorded outcome is acceptable to PMS *)
 Definition spec_helper_ok (i : inv) (r : val) : bool :=
-  match pms_expect i, r with
+  match (match pms_expect i with PExpect ex => if conflict ex then PUndef else PExpect ex | v => v end), r with
   | PUndef, _ => true
   | PReject, VErr _ => true
   | PReject, _ => false
